@@ -764,11 +764,11 @@ Proof.
 Qed.
 
 (* the end of scanRegex: the root group is closed and becomes the tree *)
-Lemma scan_end_o st st' u : mbody st -> oinv st -> add_group st = POk st' -> ms_unit st' = Some u ->
-  n_t (ms_group st) = T_Capture -> wf u.
+Lemma scan_end_o st st' u : mbody st -> oinv st -> add_group st = POk st' -> ms_unit st' = Some u -> wf u.
 Proof.
-  intros B Ho E Eu Ht. destruct (add_group_o st st' B Ho E) as [_ [_ [_ [g' [U' [T' [P' _]]]]]]].
-  rewrite Eu in U'. inversion U'; subst g'. apply pre_wf; [|exact P']. rewrite T', Ht. discriminate.
+  intros B Ho E Eu. destruct (add_group_o st st' B Ho E) as [_ [_ [_ [g' [U' [T' [P' _]]]]]]].
+  rewrite Eu in U'. inversion U'; subst g'. apply pre_wf; [|exact P']. rewrite T'.
+  destruct Ho as [[[_ [_ K]] _] _ _]. destruct (kcls (n_t (ms_group st))); try contradiction; discriminate.
 Qed.
 
 Lemma oinv_init o : zmem 0 caps = true ->
